@@ -38,6 +38,7 @@ var placeholderRE = regexp.MustCompile(`\{\{\s*([A-Za-z0-9_.\-]+)[^}]*\}\}`)
 
 func runC38(w *World, r *Report) {
 	defer c38Forwarding(w, r)
+	defer c38ExactMembership(w, r)
 
 	r.Rule("R-C38-1", "every constant key reaching a localization lookup has non-empty English text in the embedded message table", 1500)
 	r.Rule("R-C38-2", "every key of every non-English language exists in English and uses the same {{placeholder}} names", 3000)
